@@ -33,6 +33,7 @@ inductive Step where
   | swap (v : Nat)
   | snap (i : Nat)
   | read (i : Nat)
+  | readLive (i : Nat)         -- a routing read that goes to srv.ServerConf / GetServerConf() instead of the snapshot
   | finish (i : Nat)
   deriving Repr, DecidableEq
 
@@ -49,9 +50,35 @@ def step (s : St) : Step → St
   | .read i => match (s.reqs i).snap with
       | some v => if (s.reqs i).done then s else { s with reqs := upd s.reqs i { (s.reqs i) with reads := (s.reqs i).reads ++ [v] } }
       | none => s
+  | .readLive i => match (s.reqs i).snap with
+      | some _ => if (s.reqs i).done then s else { s with reqs := upd s.reqs i { (s.reqs i) with reads := (s.reqs i).reads ++ [s.cur] } }
+      | none => s
   | .finish i => if (s.reqs i).snap.isSome then { s with reqs := upd s.reqs i { (s.reqs i) with done := true } } else s
 
 def runSteps (s : St) (steps : List Step) : St := steps.foldl step s
+
+/-! ### which reads can be live: the snapshot-site table extracted from the source -/
+
+/-- functions that create a request object together with its snapshot (exactly one `GetServerConf()` each) -/
+def requestEntry : List String := ["conn.readRequest", "ProtocolHandler.ServeHTTP", "BfeServer.Balance"]
+
+/-- the other places that may look at the current configuration: start-up, the reload functions, the accessor
+    itself, health-check conf, connection set-up (vip → product), TLS-proxy product lookup, monitor pages -/
+def otherAllowed : List String :=
+  ["BfeServer.InitDataLoad", "BfeServer.serverDataConfReload", "BfeServer.gslbDataConfReload",
+   "BfeServer.GetServerConf", "BfeServer.GetCheckConf", "BfeServer.FindProduct", "newConn",
+   "BfeServer.HostTableStatusGet", "BfeServer.HostTableVersionGet", "BfeServer.ClusterTableVersionGet"]
+
+/-- the request path is clean: every site that obtains the current configuration is in the white list (so none is
+    in ReverseProxy.ServeHTTP, findProduct, findCluster, FindLocation, clusterInvoke, conn.serve, …) and every
+    request-entry function takes exactly ONE snapshot -/
+def pathClean (sites : List (String × String)) : Bool :=
+  sites.all (fun s => (requestEntry ++ otherAllowed).contains s.1) &&
+  requestEntry.all (fun f => (sites.filter (fun s => s.1 == f)).length == 1)
+
+/-- a step sequence the code can perform: live reads exist only if the request path is not clean -/
+def Conforms (clean : Bool) (steps : List Step) : Prop :=
+  clean = true → ∀ i, Step.readLive i ∉ steps
 
 /-! ## (B) RWMutex discipline -/
 /-- one access site of the shared field: (function, isWrite, lock mode held: 0 none / 1 RLock / 2 Lock) -/
